@@ -41,7 +41,7 @@ def mlr_rows(ctx, cols, rows, prog, outs, args=(), env=None, verb=None):
     return res
 
 
-def par(ctx, jobs, workers=8):
+def par(ctx, jobs, workers=2):
     from concurrent.futures import ThreadPoolExecutor
     with ThreadPoolExecutor(max_workers=workers) as ex:
         futs = [ex.submit(mlr_rows, ctx, *a, **k) for a, k in jobs]
@@ -226,7 +226,7 @@ def run(ctx):
             ((["id", "a", "b", "c"], V, None, None), {"verb": ["clean-whitespace", "-v"], "args": ["-S"]}),
             ((["id", "a", "b", "c"], V, P(["clean_whitespace($id)", "clean_whitespace($a)", "clean_whitespace($b)", "clean_whitespace($c)"]), ["id", "a", "b", "c"]), {"args": ["-S"]}),
         ]
-        res = par(ctx, jobs + vjobs, workers=8)
+        res = par(ctx, jobs + vjobs, workers=2)
         r1, r2, r3, r4, r5, r6, r7 = res[:7]
         vres = res[7:]
 
@@ -378,7 +378,7 @@ def run(ctx):
             ctx.violation({"broken": why}, found_input=False)
         return
     with ctx.timed("coq_cases"):
-        badi, err = coq_eval_mismatches(ctx, "C15", "C15.Model C15.Harness", "Z * Z * Z * bytes * bytes * bytes * bytes", "chk", terms, shard=1200)
+        badi, err = coq_eval_mismatches(ctx, "C15", "C15.Model C15.Harness", "Z * Z * Z * bytes * bytes * bytes * bytes", "chk", terms, shard=len(terms) // 2 + 1)
     ctx.cov["correspondence"] = {"cases": len(terms), "mismatches": len(badi)}
     if err:
         ctx.violation({"broken": "correspondence-evaluation", "detail": err[-2000:]}, found_input=False)
